@@ -77,6 +77,8 @@ RULES = {
     'R-LOOPRESET': generic_rules.r_loopreset,
     'R-WRONGCHECK': generic_rules.r_wrongcheck,
     'R-STALESNAP': generic_rules.r_stalesnap,
+    'R-INDEXBYVALUE': generic_rules.r_indexbyvalue,
+    'R-COUNTERSTR': generic_rules.r_counterstr,
 }
 
 
@@ -167,7 +169,7 @@ PROPS = {
         'filter': {'R-DISCONT': site('transform.boyd_split', 'trees.terminal_blocks'),
                    'R-LEAFGUARD': site('transform._uncollapse_unary_chains', 'transform._collapse_unary_chains'),
                    'R-LINK': site('transform.', 'trees.'),
-                   'R-HEADS': rule('R-HEADS/MARK', 'R-HEADS/RANGE'),
+                   'R-HEADS': rule('R-HEADS/MARK', 'R-HEADS/RANGE', 'R-HEADS/NEGRA'),
                    'R-ORDERED': both(rule('R-ORDERED/RAW'), site('transform.', 'trees.'))},
         'explanation': 'Decides, for every structural transformation: each attach is paired with the parent-pointer '
                        'update on every path and vice versa, each detach is followed by re-attachment or discard, '
@@ -262,8 +264,9 @@ PROPS = {
                        'the pos option selects the POS component. Also: writer options come from --dest-opts, encodings reach the opens, `_inorder` returns early only for tokens. Does NOT decide: replay soundness.',
     },
     'C11': {
-        'rules': ['R-ROOT', 'R-EDIT', 'R-LABELEDIT', 'R-STATE', 'R-FRAME', 'R-KEEP'],
+        'rules': ['R-ROOT', 'R-EDIT', 'R-LABELEDIT', 'R-STATE', 'R-FRAME', 'R-KEEP', 'R-LITERALS'],
         'filter': {'R-ROOT': site(*EDITORS),
+                   'R-LITERALS': site('trees.'),
                    'R-KEEP': site('trees.delete_terminal'),
                    'R-LABELEDIT': site('transform.ptb_delete_traces'),
                    'R-STATE': either(rule('R-STATE/G3'), both(rule('R-STATE/G1'), site('trees', 'transform'))),
@@ -289,9 +292,10 @@ PROPS = {
                        'the set-based reference.',
     },
     'C13': {
-        'rules': ['R-FRAME', 'R-LINK', 'R-KEEP', 'R-PUNCTSEL', 'R-STALE', 'R-SYMTARGET', 'R-LITERALS', 'R-STATE'],
+        'rules': ['R-FRAME', 'R-LINK', 'R-KEEP', 'R-PUNCTSEL', 'R-STALE', 'R-SYMTARGET', 'R-LITERALS', 'R-STATE', 'R-ORDERED'],
         'filter': {'R-STATE': both(rule('R-STATE/G1', 'R-STATE/G7'), site('transform', 'trees')),
                    'R-LITERALS': site('trees.'),
+                   'R-ORDERED': both(rule('R-ORDERED/RAW'), site(*PUNCT)),
                    'R-FRAME': site(*PUNCT), 'R-LINK': site(*PUNCT), 'R-KEEP': site(*PUNCT), 'R-STALE': site(*PUNCT)},
         'explanation': 'Decides: only tokens filtered by trees.PUNCT / PAIRPUNCT are moved; the moved set is '
                        'restricted by the documented conditions only; links are paired; no constituent is emptied '
@@ -404,7 +408,7 @@ PROPS = {
 }
 
 # generic misuse patterns (ttsa/rules/generic_rules.py) are looked for in the functions each property is anchored in
-GENERIC = ['R-SUBSTR', 'R-DEADCHECK', 'R-FALSYZERO', 'R-DICTCOMP', 'R-STALEACC', 'R-ZEROTABLE', 'R-LEAKVAR', 'R-STRSORT', 'R-FMTDATA', 'R-COUNTERUNION', 'R-INSTR', 'R-ORDEFAULT', 'R-KEYCOPY', 'R-SHAREDMUT', 'R-SHAREDTABLE', 'R-ONESHOT', 'R-LOOPRESET', 'R-WRONGCHECK', 'R-STALESNAP']
+GENERIC = ['R-SUBSTR', 'R-DEADCHECK', 'R-FALSYZERO', 'R-DICTCOMP', 'R-STALEACC', 'R-ZEROTABLE', 'R-LEAKVAR', 'R-STRSORT', 'R-FMTDATA', 'R-COUNTERUNION', 'R-INSTR', 'R-ORDEFAULT', 'R-KEYCOPY', 'R-SHAREDMUT', 'R-SHAREDTABLE', 'R-ONESHOT', 'R-LOOPRESET', 'R-WRONGCHECK', 'R-STALESNAP', 'R-INDEXBYVALUE', 'R-COUNTERSTR']
 PROP_SITES = {
     'C01': ('treeinput.', 'trees.parse_label', 'misc.'),
     'C02': ('treeoutput.', 'trees.get_label', 'treeanalysis.gap'),
